@@ -90,7 +90,7 @@ def run_k(cfg):
         return []
     peer = PlanPeer(plan)
     loop = KLoop(peer)
-    p = make_protocol(cfg['transport'], T, R, cfg['ka'])
+    p = make_protocol(cfg['transport'], T, R, cfg['ka'], host=cfg.get('host'))
     if off:
         # Inverter.send_command() style: the caller supplies the request bytes - here the very bytes of the typed command
         # that follows - and accepts whatever comes back
@@ -139,6 +139,8 @@ def job(cfgs):
                 cls = 'after-fragment'
             if cfg.get('raw_prior'):
                 cls += '/after-raw-command-with-the-same-bytes'
+            if cfg.get('host'):
+                cls += '/host-given-as-a-name'
             if cfg.get('mbap'):
                 cls += f"/unreliable-length-field:{cfg['mbap']}"
             if not any(c == clause for c, _ in v2):
@@ -393,6 +395,14 @@ def run(tier, seed, rep):
                 for mode in ('zero', 'echo6', 'plus7', 'minus1'):
                     for k in (0, 1):
                         cfgs.append(dict(transport='tcp', ka=ka, T=1, R=1, k=k, kind=kind, code=code, mbap=mode))
+    # the application configured the inverter's host as a name or a short spelling (answers come from the resolved address)
+    for tr in ('udp', 'tcp'):
+        for ka in (False, True):
+            for kind in KINDS:
+                for code in (1, 2, 3, 6, 11, 0x55):
+                    for k in (0, 1):
+                        for host in ('inverter.local', '10.0.2'):
+                            cfgs.append(dict(transport=tr, ka=ka, T=1, R=1, k=k, kind=kind, code=code, host=host))
     # a pending fragment of a read answer must not swallow the exception frame
     for tr in ('udp', 'tcp'):
         for ka in (False, True):
